@@ -24,6 +24,11 @@ let rec process (toks : string list) : string =
   | ["MAC"; k; m] -> hex_of_bytes (x_mac (bytes_of_hex k) (bytes_of_hex m))
   | ["MACV"; t; k; m] -> string_of_int (int_of_z (x_mac_verify (bytes_of_hex t) (bytes_of_hex k) (bytes_of_hex m)))
   | ["PRFS"; k; m; n] -> (match x_prf_short (bytes_of_hex k) (bytes_of_hex m) (nat n) with None -> "ERR" | Some o -> hex_of_bytes o)
+  | ["PRFSL"; k; m; il; ol] ->
+    (* declared lengths may exceed any buffer: decimal strings of more than 2 digits are > 16 *)
+    let small x = String.length x <= 2 && int_of_string x <= 16 in
+    if not (small il && small ol) then "ERR"
+    else (match x_prf_short (bytes_of_hex k) (bytes_of_hex m) (nat ol) with None -> "ERR" | Some o -> "ACCEPTED " ^ hex_of_bytes o)
   | ["PRFSSPEC"; k; m; n] -> (match x_spec_prf_short (bytes_of_hex k) (bytes_of_hex m) (nat n) with None -> "ERR" | Some o -> hex_of_bytes o)
   | ["HM"; v; k; chunks] -> hex_of_bytes (x_hmac_run (hv v) (bytes_of_hex k) (split_chunks chunks))
   | ["HMO"; v; k; m] -> hex_of_bytes (x_hmac_run (hv v) (bytes_of_hex k) [bytes_of_hex m])
@@ -60,5 +65,5 @@ let rec process (toks : string list) : string =
   | _ -> "UNSUPPORTED"
 
 let () = List.iter (fun n -> register n process)
-    ["PRF"; "PRFSPEC"; "MAC"; "MACV"; "PRFS"; "PRFSSPEC"; "HM"; "HMO"; "HMSPEC"; "KM"; "KMO"; "KMSPEC"; "KD"; "KDO"; "KDSPEC";
+    ["PRF"; "PRFSPEC"; "MAC"; "MACV"; "PRFS"; "PRFSL"; "PRFSSPEC"; "HM"; "HMO"; "HMSPEC"; "KM"; "KMO"; "KMSPEC"; "KD"; "KDO"; "KDSPEC";
      "HK"; "HKO"; "HKSPEC"; "PB"; "PBSPEC"]
